@@ -18,7 +18,7 @@ RULE = (
     "'CERT_NONE', ssl.CERT_NONE} x assert_hostname {unset, False, matching, mismatching} x assert_fingerprint {unset, right "
     "sha256, right sha1 with colons/upper case, wrong, bad length} x server_hostname {unset, matching, mismatching} x "
     "ssl_context {none, create_urllib3_context(), same with check_hostname off, stdlib create_default_context with our CA} x "
-    "CA source {ca_certs file, ca_cert_data, none} x issuer {trusted, untrusted} x certificate names {exact, mismatch, wildcard, "
+    "CA source {ca_certs file, ca_cert_data, none = the OS default store, which SSL_CERT_FILE makes hold the other authority only} x issuer {trusted authority, the other authority} x certificate names {exact, mismatch, wildcard, "
     "IPv4, IPv6, commonName only} x requested host form {lower, UPPER, trailing dot, IPv4, [IPv6], [IPv6%25zone]} x backend "
     "{ssl, pyOpenSSL} x path {direct, http-proxy CONNECT tunnel, https-proxy tunnel = real TLS in TLS with the proxy certificate ok / untrusted / wrong name}. Every cell is a REAL TLS handshake (trustme certificates) over "
     "socket.socketpair() against an in-process server thread that records whether any application byte arrived after the "
@@ -29,6 +29,7 @@ ASSUMPTIONS = [
     "the TLS stacks themselves (OpenSSL via ssl and via pyOpenSSL) and trustme's certificates are trusted; only urllib3's use of them is under test",
     "vlib/refname.py (C08's independent matcher) decides whether a name matches the certificate; cells it calls 'either' carry no hostname expectation",
     "a caller-supplied stdlib context that has check_hostname=True together with cert_reqs=NONE is a configuration error of the ssl module (any exception, no byte sent)",
+    "SSL_CERT_FILE / SSL_CERT_DIR (set inside the checking process) define the OS default trust store for both backends",
     "the server thread reports within a 10 s guard; a guard hit is a harness error, never a violation",
 ]
 EXHAUSTIVE = {"quick": False, "thorough": True}
@@ -67,6 +68,13 @@ def world():
     d = tempfile.mkdtemp(prefix="c07.", dir=os.path.join(os.path.dirname(os.path.dirname(os.path.abspath(__file__))), ".work")) if os.path.isdir(os.path.join(os.path.dirname(os.path.dirname(os.path.abspath(__file__))), ".work")) else tempfile.mkdtemp(prefix="c07.")
     ca_file = os.path.join(d, "ca.pem")
     ca.cert_pem.write_to_path(ca_file)
+    # the OS default trust store of this process: exactly the OTHER authority.  A client that was given CAs of its own must
+    # not consult it; a client that was given none (and no context) falls back to it, as documented
+    other_file = os.path.join(d, "os-default.pem")
+    other.cert_pem.write_to_path(other_file)
+    os.makedirs(os.path.join(d, "os-default.d"), exist_ok=True)
+    os.environ["SSL_CERT_FILE"] = other_file
+    os.environ["SSL_CERT_DIR"] = os.path.join(d, "os-default.d")
     _W.update(ca=ca, other=other, ca_file=ca_file, ca_data=ca.cert_pem.bytes().decode("ascii"), dir=d, certs={})
     return _W
 
@@ -257,7 +265,10 @@ def reference(case, cn_enabled_by_context):
     chain_demanded = eff != "NONE"
     # which CAs does the client know?
     has_ca = case["ca"] != "none" or ctx_kind == "stdlib-default"
-    chain_ok = case["issuer"] == "trusted" and has_ca
+    # no CA setting and no caller context: urllib3 loads the OS default store, which here holds the other authority only
+    # (the pyOpenSSL context has no load_default_certs(): with that backend and no CA setting nothing is trusted)
+    os_default = case["ca"] == "none" and ctx_kind == "none" and case["backend"] == "ssl"
+    chain_ok = (case["issuer"] == "trusted" and has_ca) or (case["issuer"] == "untrusted" and os_default)
     pin_ok = case["fp"] in ("sha256", "sha1-colons")
     host_demanded = (not pin) and case["ah"] != "false" and eff != "NONE"
     url_name = NAME_OF_FORM[case["hostform"]]
